@@ -233,6 +233,7 @@ pub fn run_invocation(sc: &Scenario, case: &mut Case, inv: &Invocation, tag: &st
     let run_dir = case.run_dir();
     let plan_path = run_dir.join(format!("{}.plan.json", tag));
     let trace_path = run_dir.join(format!("{}.trace", tag));
+    let stderr_path = run_dir.join(format!("{}.stderr", tag));
     let mut plan = inv.plan.clone();
     plan.root = case.root.to_string_lossy().into_owned();
     plan.vars_dir = case.vars_dir().to_string_lossy().into_owned();
@@ -270,20 +271,49 @@ pub fn run_invocation(sc: &Scenario, case: &mut Case, inv: &Invocation, tag: &st
         .env("PATH", "/usr/bin:/bin")
         .current_dir(&case.root)
         .stdin(Stdio::null())
-        .stdout(Stdio::piped())
-        .stderr(Stdio::piped())
-        .output()
+        .stdout(Stdio::null())
+        .stderr(Stdio::from(std::fs::File::create(&stderr_path).expect("create stderr file")))
+        .spawn()
         .expect("cannot launch zinoma-sim");
+    // Wall-clock watchdog: simulated time has nothing to do with real time, a run takes
+    // milliseconds; one that is still there after minutes is stuck outside the step budget
+    // (a fault of the harness, reported as such - never as a violation).
+    let mut out = out;
+    let limit = std::time::Duration::from_secs(std::env::var("ZCHECK_RUN_TIMEOUT").ok().and_then(|s| s.parse().ok()).unwrap_or(600));
+    let mut nap = std::time::Duration::from_micros(50);
+    let mut timed_out = false;
+    let status = loop {
+        match out.try_wait() {
+            Ok(Some(st)) => break st,
+            Ok(None) => {
+                if t0.elapsed() > limit {
+                    let _ = out.kill();
+                    timed_out = true;
+                    break out.wait().expect("wait for zinoma-sim");
+                }
+                std::thread::sleep(nap);
+                nap = (nap * 2).min(std::time::Duration::from_millis(5));
+            }
+            Err(e) => panic!("waiting for zinoma-sim: {}", e),
+        }
+    };
     let wall_us = t0.elapsed().as_micros() as u64;
-    let code = match out.status.code() {
+    let code = match status.code() {
         Some(c) => c,
         None => {
             use std::os::unix::process::ExitStatusExt;
-            -(out.status.signal().unwrap_or(0))
+            -(status.signal().unwrap_or(0))
         }
     };
     let text = std::fs::read(&trace_path).map(|b| String::from_utf8_lossy(&b).into_owned()).unwrap_or_default();
-    let mut r = result_from(code, String::from_utf8_lossy(&out.stderr).into_owned(), &text, wall_us);
+    let mut stderr_text = std::fs::read(&stderr_path).map(|b| String::from_utf8_lossy(&b).into_owned()).unwrap_or_default();
+    let code = if timed_out {
+        stderr_text = format!("zinoma-sim did not end within {} s of real time (plan {}); killed by the driver's watchdog\n{}", limit.as_secs(), plan_path.display(), stderr_text);
+        96
+    } else {
+        code
+    };
+    let mut r = result_from(code, stderr_text, &text, wall_us);
     if let Some(f) = &r.footer {
         r.sim_ticks = f.clock.saturating_sub(plan.clock_start);
         case.clock = case.clock.max(f.clock);
